@@ -446,6 +446,117 @@ theorem parId_beq (t : Tree) (hn : (ids t).Nodup) (r p : Nat) :
   rw [beq_iff_eq]
   exact parId_iff t hn r p
 
+/-- `align_children` up to its move loop: either there is nothing to align (no child of `l` has its partner under
+`x`), or the call is the move loop, started from the state in which the pairs of the longest common subsequence
+are marked in order - a state for which the invariant holds -/
+theorem alignChildren_prep (ign : List Str) (qn : QName) (R : Tree) (hRn : (ids R).Nodup) (x : Tree)
+    (hx : find x.id R = some x) (l : Nat) (s : DState) (A D : List Nat) (inv : Inv ign R s A D)
+    (hlx : (l, x.id) ∈ s.ms) (hxA : x.id ∈ A)
+    (hkx : (kidIds R x.id).filter (ioB s.inorder) = []) :
+    (alignChildren qn R l x s = .ok s ∧
+      ∀ c ∈ kidIds s.left l, ∀ r, l2rGet s.ms c = some r → r ∈ kidIds R x.id → False) ∨
+    ∃ lch io', alignChildren qn R l x s = alignMoves qn R l lch { s with inorder := io' } ∧
+      Inv ign R { s with inorder := io' } A D ∧ (∀ i ∈ s.inorder, i ∈ io') ∧
+      (∀ c, c ∈ lch ↔ c ∈ kidIds s.left l ∧ ∃ r, l2rGet s.ms c = some r ∧ r ∈ kidIds R x.id) := by
+  have hlW : l ∈ ids s.left := (inv.mdom _ hlx).1
+  obtain ⟨ln, hfl⟩ := find_some_of_mem l s.left hlW
+  unfold alignChildren
+  rw [hfl]
+  simp only
+  have hK : ln.kids.map Tree.id = kidIds s.left l := by unfold kidIds; rw [hfl]
+  have hX : x.kids.map Tree.id = kidIds R x.id := by unfold kidIds; rw [hx]
+  rw [hK, hX]
+  generalize hlch : (kidIds s.left l).filter (fun c =>
+    match l2rGet s.ms c with
+    | some r => (R.parentOf r).map Tree.id == some x.id
+    | none => false) = lch
+  generalize hrch : (kidIds R x.id).filter (fun c =>
+    match r2lGet s.ms c with
+    | some a => (s.left.parentOf a).map Tree.id == some l
+    | none => false) = rch
+  have mlch : ∀ c, c ∈ lch ↔ c ∈ kidIds s.left l ∧ ∃ r, l2rGet s.ms c = some r ∧ r ∈ kidIds R x.id := by
+    intro c
+    rw [← hlch, List.mem_filter]
+    constructor
+    · rintro ⟨h1, h2⟩
+      cases hr : l2rGet s.ms c with
+      | none => rw [hr] at h2; cases h2
+      | some r =>
+        rw [hr] at h2
+        exact ⟨h1, r, rfl, (parId_beq R hRn r x.id).mp h2⟩
+    · rintro ⟨h1, r, hr, h2⟩
+      rw [hr]
+      exact ⟨h1, (parId_beq R hRn r x.id).mpr h2⟩
+  have mrch : ∀ c, c ∈ rch ↔ c ∈ kidIds R x.id ∧ ∃ a, r2lGet s.ms c = some a ∧ a ∈ kidIds s.left l := by
+    intro c
+    rw [← hrch, List.mem_filter]
+    constructor
+    · rintro ⟨h1, h2⟩
+      cases hr : r2lGet s.ms c with
+      | none => rw [hr] at h2; cases h2
+      | some a =>
+        rw [hr] at h2
+        exact ⟨h1, a, rfl, (parId_beq _ inv.wf a l).mp h2⟩
+    · rintro ⟨h1, a, hr, h2⟩
+      rw [hr]
+      exact ⟨h1, (parId_beq _ inv.wf a l).mpr h2⟩
+  split
+  · next hempty =>
+    left
+    refine ⟨rfl, ?_⟩
+    intro c hc r hr hrk
+    have h1 : c ∈ lch := (mlch c).mpr ⟨hc, r, hr, hrk⟩
+    have h2 : r ∈ rch := (mrch r).mpr ⟨hrk, c, r2lGet_of_mem s.ms inv.mR c r (l2rGet_mem s.ms c r hr), hc⟩
+    simp only [Bool.or_eq_true, List.isEmpty_iff] at hempty
+    rcases hempty with e | e
+    · rw [e] at h1; cases h1
+    · rw [e] at h2; cases h2
+  · right
+    simp only [List.getElem?_toArray]
+    split
+    case h_2 hno =>
+      exact ((Lcs.lcs_spec _ _ _).elim (fun ps h => hno ps h.1)).elim
+    rename_i ps hps
+    obtain ⟨hinc, hval⟩ := lcs_ok_spec _ _ _ ps hps
+    have hv : ∀ p ∈ ps, ∃ a b, lch[p.1]? = some a ∧ rch[p.2]? = some b ∧ l2rGet s.ms a = some b := by
+      intro p hp
+      obtain ⟨h1, h2, h3⟩ := hval p hp
+      have e1 : lch[p.1]? = some lch[p.1] := List.getElem?_eq_getElem h1
+      have e2 : rch[p.2]? = some rch[p.2] := List.getElem?_eq_getElem h2
+      simp only [e1, e2, beq_iff_eq] at h3
+      exact ⟨_, _, e1, e2, h3⟩
+    have hvs : ∀ p ∈ ps, (lch[p.1]?).isSome ∧ (rch[p.2]?).isSome := by
+      intro p hp
+      obtain ⟨a, b, e1, e2, _⟩ := hv p hp
+      simp [e1, e2]
+    have hmkms : ∀ m ∈ marks lch rch ps, m ∈ s.ms := by
+      intro m hm
+      unfold marks at hm
+      obtain ⟨p, hp, e⟩ := List.mem_filterMap.mp hm
+      obtain ⟨a, b, e1, e2, e3⟩ := hv p hp
+      rw [e1, e2] at e
+      simp only [Option.some.injEq] at e
+      rw [← e]
+      exact l2rGet_mem s.ms a b e3
+    have hAL : ((marks lch rch ps).map (·.1)).Sublist (kidIds s.left l) := by
+      rw [marks_fst lch rch ps hvs]
+      refine List.Sublist.trans (Ord.incr_sublist lch _ ?_) (hlch ▸ List.filter_sublist)
+      rw [List.pairwise_map]
+      exact hinc.imp (fun h => h.1)
+    have hBL : ((marks lch rch ps).map (·.2)).Sublist (kidIds R x.id) := by
+      rw [marks_snd lch rch ps hvs]
+      refine List.Sublist.trans (Ord.incr_sublist rch _ ?_) (hrch ▸ List.filter_sublist)
+      rw [List.pairwise_map]
+      exact hinc.imp (fun h => h.2)
+    generalize hio' : ps.foldl (fun acc p =>
+      match lch[p.1]?, rch[p.2]? with
+      | some a, some b => b :: a :: acc
+      | _, _ => acc) s.inorder = io'
+    have hmem : ∀ i, i ∈ io' ↔ i ∈ s.inorder ∨ i ∈ (marks lch rch ps).map (·.1) ∨ i ∈ (marks lch rch ps).map (·.2) := by
+      intro i; rw [← hio']; exact mem_markFold lch rch ps s.inorder i
+    have invA := mark_inv ign R hRn s A D inv l x.id hlx hxA hkx (marks lch rch ps) hmkms hAL hBL io' hmem
+    exact ⟨lch, io', rfl, invA, fun i hi => (hmem i).mpr (Or.inl hi), mlch⟩
+
 theorem alignChildren_inv (ign : List Str) (qn : QName) (R : Tree) (hRn : (ids R).Nodup) (x : Tree)
     (hx : find x.id R = some x) (l : Nat) (s s' : DState) (A D : List Nat) (inv : Inv ign R s A D)
     (hlx : (l, x.id) ∈ s.ms) (hxA : x.id ∈ A)
@@ -454,113 +565,19 @@ theorem alignChildren_inv (ign : List Str) (qn : QName) (R : Tree) (hRn : (ids R
     Inv ign R s' A D ∧ s'.ms = s.ms ∧ s'.next = s.next ∧ (∀ j, payOf s'.left j = payOf s.left j) ∧
       (∀ i ∈ s.inorder, i ∈ s'.inorder) ∧
       (∀ c ∈ kidIds s'.left l, ∀ r, l2rGet s.ms c = some r → r ∈ kidIds R x.id → c ∈ s'.inorder) := by
-  unfold alignChildren at h
-  cases hfl : find l s.left with
-  | none => rw [hfl] at h; cases h
-  | some ln =>
-    rw [hfl] at h
-    simp only at h
-    have hK : ln.kids.map Tree.id = kidIds s.left l := by unfold kidIds; rw [hfl]
-    have hX : x.kids.map Tree.id = kidIds R x.id := by unfold kidIds; rw [hx]
-    rw [hK, hX] at h
-    generalize hlch : (kidIds s.left l).filter (fun c =>
-      match l2rGet s.ms c with
-      | some r => (R.parentOf r).map Tree.id == some x.id
-      | none => false) = lch at h
-    generalize hrch : (kidIds R x.id).filter (fun c =>
-      match r2lGet s.ms c with
-      | some a => (s.left.parentOf a).map Tree.id == some l
-      | none => false) = rch at h
-    have mlch : ∀ c, c ∈ lch ↔ c ∈ kidIds s.left l ∧ ∃ r, l2rGet s.ms c = some r ∧ r ∈ kidIds R x.id := by
-      intro c
-      rw [← hlch, List.mem_filter]
-      constructor
-      · rintro ⟨h1, h2⟩
-        cases hr : l2rGet s.ms c with
-        | none => rw [hr] at h2; cases h2
-        | some r =>
-          rw [hr] at h2
-          exact ⟨h1, r, rfl, (parId_beq R hRn r x.id).mp h2⟩
-      · rintro ⟨h1, r, hr, h2⟩
-        rw [hr]
-        exact ⟨h1, (parId_beq R hRn r x.id).mpr h2⟩
-    have mrch : ∀ c, c ∈ rch ↔ c ∈ kidIds R x.id ∧ ∃ a, r2lGet s.ms c = some a ∧ a ∈ kidIds s.left l := by
-      intro c
-      rw [← hrch, List.mem_filter]
-      constructor
-      · rintro ⟨h1, h2⟩
-        cases hr : r2lGet s.ms c with
-        | none => rw [hr] at h2; cases h2
-        | some a =>
-          rw [hr] at h2
-          exact ⟨h1, a, rfl, (parId_beq _ inv.wf a l).mp h2⟩
-      · rintro ⟨h1, a, hr, h2⟩
-        rw [hr]
-        exact ⟨h1, (parId_beq _ inv.wf a l).mpr h2⟩
-    split at h
-    · next hempty =>
-      -- nothing to align: no child of `l` has its partner under `x`
-      simp only [Except.ok.injEq] at h
-      subst h
-      refine ⟨inv, rfl, rfl, fun _ => rfl, fun _ hi => hi, ?_⟩
-      intro c hc r hr hrk
-      exfalso
-      have h1 : c ∈ lch := (mlch c).mpr ⟨hc, r, hr, hrk⟩
-      have h2 : r ∈ rch := (mrch r).mpr ⟨hrk, c, r2lGet_of_mem s.ms inv.mR c r (l2rGet_mem s.ms c r hr), hc⟩
-      simp only [Bool.or_eq_true, List.isEmpty_iff] at hempty
-      rcases hempty with e | e
-      · rw [e] at h1; cases h1
-      · rw [e] at h2; cases h2
-    · simp only [List.getElem?_toArray] at h
-      split at h
-      case h_2 => cases h
-      rename_i ps hps
-      obtain ⟨hinc, hval⟩ := lcs_ok_spec _ _ _ ps hps
-      -- what the pairs are
-      have hv : ∀ p ∈ ps, ∃ a b, lch[p.1]? = some a ∧ rch[p.2]? = some b ∧ l2rGet s.ms a = some b := by
-        intro p hp
-        obtain ⟨h1, h2, h3⟩ := hval p hp
-        have e1 : lch[p.1]? = some lch[p.1] := List.getElem?_eq_getElem h1
-        have e2 : rch[p.2]? = some rch[p.2] := List.getElem?_eq_getElem h2
-        simp only [e1, e2, beq_iff_eq] at h3
-        exact ⟨_, _, e1, e2, h3⟩
-      have hvs : ∀ p ∈ ps, (lch[p.1]?).isSome ∧ (rch[p.2]?).isSome := by
-        intro p hp
-        obtain ⟨a, b, e1, e2, _⟩ := hv p hp
-        simp [e1, e2]
-      have hmkms : ∀ m ∈ marks lch rch ps, m ∈ s.ms := by
-        intro m hm
-        unfold marks at hm
-        obtain ⟨p, hp, e⟩ := List.mem_filterMap.mp hm
-        obtain ⟨a, b, e1, e2, e3⟩ := hv p hp
-        rw [e1, e2] at e
-        simp only [Option.some.injEq] at e
-        rw [← e]
-        exact l2rGet_mem s.ms a b e3
-      have hAL : ((marks lch rch ps).map (·.1)).Sublist (kidIds s.left l) := by
-        rw [marks_fst lch rch ps hvs]
-        refine List.Sublist.trans (Ord.incr_sublist lch _ ?_) (hlch ▸ List.filter_sublist)
-        rw [List.pairwise_map]
-        exact hinc.imp (fun h => h.1)
-      have hBL : ((marks lch rch ps).map (·.2)).Sublist (kidIds R x.id) := by
-        rw [marks_snd lch rch ps hvs]
-        refine List.Sublist.trans (Ord.incr_sublist rch _ ?_) (hrch ▸ List.filter_sublist)
-        rw [List.pairwise_map]
-        exact hinc.imp (fun h => h.2)
-      generalize hio' : ps.foldl (fun acc p =>
-        match lch[p.1]?, rch[p.2]? with
-        | some a, some b => b :: a :: acc
-        | _, _ => acc) s.inorder = io' at h
-      have hmem : ∀ i, i ∈ io' ↔ i ∈ s.inorder ∨ i ∈ (marks lch rch ps).map (·.1) ∨ i ∈ (marks lch rch ps).map (·.2) := by
-        intro i; rw [← hio']; exact mem_markFold lch rch ps s.inorder i
-      have invA := mark_inv ign R hRn s A D inv l x.id hlx hxA hkx (marks lch rch ps) hmkms hAL hBL io' hmem
-      have hS : ∀ c ∈ lch, c ∈ kidIds s.left l ∧ ∃ r, l2rGet s.ms c = some r ∧ r ∈ kidIds R x.id :=
-        fun c hc => (mlch c).mp hc
-      obtain ⟨a, b, c, d, e, f, g⟩ := alignMoves_inv ign qn R hRn l x.id A D hxA lch _ s' invA hlx hS h
-      refine ⟨a, b, c, d, fun i hi => e i ((hmem i).mpr (Or.inl hi)), ?_⟩
-      intro c' hc' r hr hrk
-      have : c' ∈ kidIds s.left l := (g c').mp hc'
-      exact f c' ((mlch c').mpr ⟨this, r, hr, hrk⟩)
+  rcases alignChildren_prep ign qn R hRn x hx l s A D inv hlx hxA hkx with ⟨h0, hnone⟩ | ⟨lch, io', heq, invA, hmono, mlch⟩
+  · rw [h0] at h
+    simp only [Except.ok.injEq] at h
+    subst h
+    exact ⟨inv, rfl, rfl, fun _ => rfl, fun _ hi => hi, fun c hc r hr hrk => (hnone c hc r hr hrk).elim⟩
+  · rw [heq] at h
+    have hS : ∀ c ∈ lch, c ∈ kidIds s.left l ∧ ∃ r, l2rGet s.ms c = some r ∧ r ∈ kidIds R x.id :=
+      fun c hc => (mlch c).mp hc
+    obtain ⟨a, b, c, d, e, f, g⟩ := alignMoves_inv ign qn R hRn l x.id A D hxA lch _ s' invA hlx hS h
+    refine ⟨a, b, c, d, fun i hi => e i (hmono i hi), ?_⟩
+    intro c' hc' r hr hrk
+    have : c' ∈ kidIds s.left l := (g c').mp hc'
+    exact f c' ((mlch c').mpr ⟨this, r, hr, hrk⟩)
 
 end Chw
 end XmlDiffModel
